@@ -388,6 +388,8 @@ func (p *Prog) findMapRanges() map[string]*ast.RangeStmt {
 func (p *Prog) FrameObligations(prop string) []*Obligation {
 	var obls []*Obligation
 	switch prop {
+	case "C08":
+		return p.c08Obligations()
 	case "C10", "C09":
 		tags := []string{prop}
 		var entries []string
@@ -497,5 +499,268 @@ func (p *Prog) FrameObligations(prop string) []*Obligation {
 			obls = append(obls, analysisObl("det:"+k, "det", tags, ok, "mutable package state reachable from an entry point is justified in spec/c06_allowed_nondeterminism.txt", "", detail, ""))
 		}
 	}
+	return obls
+}
+
+// ---- C08: deny-list of unsafe built-ins ------------------------------------------------------------------------
+
+// stringOfBuiltinName resolves an expression like ast.HTTPSend.Name to its string by reading the dependency's source
+func (p *Prog) stringOfBuiltinName(info *types.Info, e ast.Expr) (string, bool) {
+	if tv, ok := info.Types[e]; ok && tv.Value != nil {
+		return strings.Trim(tv.Value.ExactString(), `"`), true
+	}
+	se, ok := unparen(e).(*ast.SelectorExpr)
+	if !ok || se.Sel.Name != "Name" {
+		return "", false
+	}
+	var v *types.Var
+	switch x := unparen(se.X).(type) {
+	case *ast.SelectorExpr:
+		v, _ = info.Uses[x.Sel].(*types.Var)
+	case *ast.Ident:
+		v, _ = info.Uses[x].(*types.Var)
+	}
+	if v == nil || v.Pkg() == nil {
+		return "", false
+	}
+	pk := p.AllPkgs[v.Pkg().Path()]
+	if pk == nil {
+		return "", false
+	}
+	for _, f := range pk.Syntax {
+		for _, d := range f.Decls {
+			gd, ok := d.(*ast.GenDecl)
+			if !ok || gd.Tok != token.VAR {
+				continue
+			}
+			for _, sp := range gd.Specs {
+				vs := sp.(*ast.ValueSpec)
+				for i, n := range vs.Names {
+					if pk.TypesInfo.Defs[n] != v || i >= len(vs.Values) {
+						continue
+					}
+					val := unparen(vs.Values[i])
+					if u, ok := val.(*ast.UnaryExpr); ok && u.Op == token.AND {
+						val = unparen(u.X)
+					}
+					cl, ok := val.(*ast.CompositeLit)
+					if !ok {
+						return "", false
+					}
+					for _, el := range cl.Elts {
+						kv, ok := el.(*ast.KeyValueExpr)
+						if !ok {
+							continue
+						}
+						if k, ok := kv.Key.(*ast.Ident); ok && k.Name == "Name" {
+							if tv, ok := pk.TypesInfo.Types[kv.Value]; ok && tv.Value != nil {
+								return strings.Trim(tv.Value.ExactString(), `"`), true
+							}
+						}
+					}
+				}
+			}
+		}
+	}
+	return "", false
+}
+
+func (p *Prog) c08Obligations() []*Obligation {
+	tags := []string{"C08"}
+	var obls []*Obligation
+	var required []string
+	if b, err := os.ReadFile(filepath.Join(verifDir, "spec", "c08_required.txt")); err == nil {
+		for _, l := range strings.Split(string(b), "\n") {
+			l = strings.TrimSpace(l)
+			if l != "" && !strings.HasPrefix(l, "#") {
+				required = append(required, l)
+			}
+		}
+	}
+	// 1. the deny map
+	var vpk = p.AllPkgs[repoMod+"/internal/validator"]
+	denied := map[string]bool{}
+	var denyVar *types.Var
+	unresolved := []string{}
+	if vpk != nil {
+		for _, f := range vpk.Syntax {
+			for _, d := range f.Decls {
+				gd, ok := d.(*ast.GenDecl)
+				if !ok || gd.Tok != token.VAR {
+					continue
+				}
+				for _, sp := range gd.Specs {
+					vs := sp.(*ast.ValueSpec)
+					for i, n := range vs.Names {
+						if n.Name != "unsafeBuiltinsMap" || i >= len(vs.Values) {
+							continue
+						}
+						denyVar, _ = vpk.TypesInfo.Defs[n].(*types.Var)
+						if cl, ok := unparen(vs.Values[i]).(*ast.CompositeLit); ok {
+							for _, el := range cl.Elts {
+								if kv, ok := el.(*ast.KeyValueExpr); ok {
+									if s, ok := p.stringOfBuiltinName(vpk.TypesInfo, kv.Key); ok {
+										denied[s] = true
+									} else {
+										unresolved = append(unresolved, exprString(kv.Key))
+									}
+								}
+							}
+						}
+					}
+				}
+			}
+		}
+	}
+	for _, r := range required {
+		d := ""
+		if !denied[r] {
+			var have []string
+			for k := range denied {
+				have = append(have, k)
+			}
+			sort.Strings(have)
+			d = fmt.Sprintf("%q is not a key of validator.unsafeBuiltinsMap (keys, read from the linked OPA source: %v; unresolved: %v)", r, have, unresolved)
+		}
+		obls = append(obls, analysisObl("inv:validator.unsafeBuiltinsMap#denies:"+r, "inv", tags, denied[r], "the deny map contains "+r, "internal/validator/process_profile.go", d, "validator.CompileRego"))
+	}
+	// 2. nobody writes the map
+	var writes []string
+	for _, w := range p.globalWrites() {
+		if w.Var == denyVar && denyVar != nil {
+			writes = append(writes, w.Func+" at "+w.Pos+" ("+w.How+")")
+		}
+	}
+	// deletes
+	for _, n := range p.Order {
+		fi := p.Funcs[n]
+		info := fi.Pkg.TypesInfo
+		ast.Inspect(fi.Body(), func(nd ast.Node) bool {
+			if c, ok := nd.(*ast.CallExpr); ok {
+				if id, ok := unparen(c.Fun).(*ast.Ident); ok && id.Name == "delete" && len(c.Args) > 0 {
+					if v, _ := rootVar(info, c.Args[0]); v != nil && v == denyVar {
+						writes = append(writes, n+" at "+p.pos(c)+" (delete)")
+					}
+				}
+			}
+			return true
+		})
+	}
+	obls = append(obls, analysisObl("frame:validator.unsafeBuiltinsMap#never-written", "frame", tags, len(writes) == 0 && denyVar != nil, "no repository function writes the deny map", "", strings.Join(writes, "\n"), "validator.CompileRego"))
+	// 3. single door + option discipline
+	okOptions := map[string]bool{"Query": true, "Module": true, "UnsafeBuiltins": true}
+	var doors, badOpts []string
+	denyPassed := false
+	opaPkgs := map[string]bool{}
+	for _, n := range p.Order {
+		fi := p.Funcs[n]
+		if strings.HasSuffix(fi.File, "test_utils.go") {
+			continue
+		}
+		info := fi.Pkg.TypesInfo
+		// local variables assigned from rego.UnsafeBuiltins(unsafeBuiltinsMap)
+		denyLocals := map[*types.Var]bool{}
+		isDenyCall := func(e ast.Expr) bool {
+			c, ok := unparen(e).(*ast.CallExpr)
+			if !ok {
+				return false
+			}
+			fn := externalCallee(info, c)
+			if fn == nil || fn.Pkg() == nil || !strings.HasSuffix(fn.Pkg().Path(), "opa/rego") || fn.Name() != "UnsafeBuiltins" || len(c.Args) != 1 {
+				return false
+			}
+			v, crossed := rootVar(info, c.Args[0])
+			return v == denyVar && denyVar != nil && !crossed && exprString(unparen(c.Args[0])) == "unsafeBuiltinsMap"
+		}
+		assignCount := map[*types.Var]int{}
+		ast.Inspect(fi.Body(), func(nd ast.Node) bool {
+			if as, ok := nd.(*ast.AssignStmt); ok {
+				for i, l := range as.Lhs {
+					if v, _ := rootVar(info, l); v != nil {
+						assignCount[v]++
+						if len(as.Lhs) == len(as.Rhs) && isDenyCall(as.Rhs[i]) {
+							denyLocals[v] = true
+						}
+					}
+				}
+			}
+			return true
+		})
+		ast.Inspect(fi.Body(), func(nd ast.Node) bool {
+			c, ok := nd.(*ast.CallExpr)
+			if !ok {
+				return true
+			}
+			fn := externalCallee(info, c)
+			if fn == nil || fn.Pkg() == nil || !strings.Contains(fn.Pkg().Path(), "open-policy-agent/opa") {
+				return true
+			}
+			opaPkgs[fn.Pkg().Path()] = true
+			full := extFullName(fn)
+			short := full[strings.LastIndex(full, "/")+1:]
+			compiling := short == "rego.New" || strings.HasPrefix(short, "ast.ParseModule") || strings.HasPrefix(short, "ast.CompileModules") || short == "ast.NewCompiler" ||
+				strings.HasPrefix(short, "ast.MustCompileModules") || strings.HasPrefix(short, "ast.MustParseModule") || strings.HasPrefix(short, "rego.Load") || short == "rego.Compiler" || strings.HasPrefix(short, "ast.ParseBody") || strings.HasPrefix(short, "ast.ParseStatement")
+			if compiling {
+				doors = append(doors, n+": "+short+" at "+p.pos(c))
+			}
+			if short == "rego.New" {
+				for _, a := range c.Args {
+					switch {
+					case isDenyCall(a):
+						denyPassed = denyPassed || n == "validator.CompileRego"
+					default:
+						if id, ok := unparen(a).(*ast.Ident); ok {
+							if v, ok := info.Uses[id].(*types.Var); ok && denyLocals[v] && assignCount[v] == 1 {
+								denyPassed = denyPassed || n == "validator.CompileRego"
+								continue
+							}
+							// a local holding another option: find its constructor
+							if v, ok := info.Uses[id].(*types.Var); ok {
+								ctor := ""
+								ast.Inspect(fi.Body(), func(m ast.Node) bool {
+									if as, ok := m.(*ast.AssignStmt); ok && len(as.Lhs) == len(as.Rhs) {
+										for i, l := range as.Lhs {
+											if lv, _ := rootVar(info, l); lv == v {
+												if cc, ok := unparen(as.Rhs[i]).(*ast.CallExpr); ok {
+													if f2 := externalCallee(info, cc); f2 != nil {
+														ctor = f2.Name()
+													}
+												}
+											}
+										}
+									}
+									return true
+								})
+								if !okOptions[ctor] || assignCount[v] != 1 {
+									badOpts = append(badOpts, fmt.Sprintf("%s: option %s built by %q (assigned %d times) at %s", n, id.Name, ctor, assignCount[v], p.pos(a)))
+								}
+								continue
+							}
+						}
+						if cc, ok := unparen(a).(*ast.CallExpr); ok {
+							if f2 := externalCallee(info, cc); f2 != nil && okOptions[f2.Name()] && f2.Name() != "UnsafeBuiltins" {
+								continue
+							}
+						}
+						badOpts = append(badOpts, n+": option "+exprString(a)+" at "+p.pos(a))
+					}
+				}
+			}
+			return true
+		})
+	}
+	sort.Strings(doors)
+	single := len(doors) == 1 && strings.HasPrefix(doors[0], "validator.CompileRego: rego.New")
+	obls = append(obls, analysisObl("frame:compile-api#single-door", "frame", tags, single, "the only call that parses or compiles policy text in non-test repository code is rego.New in validator.CompileRego", "", strings.Join(doors, "\n"), "validator.CompileRego"))
+	obls = append(obls, analysisObl("post:validator.CompileRego#deny-option-passed", "post", tags, denyPassed, "rego.UnsafeBuiltins(unsafeBuiltinsMap) is among the options of that rego.New call", "", "the option is not passed (or not from the deny map)", "validator.CompileRego"))
+	obls = append(obls, analysisObl("post:validator.CompileRego#no-other-options", "post", tags, len(badOpts) == 0, "no other option (custom compiler, capabilities, a second deny list, ...) is passed to rego.New", "", strings.Join(badOpts, "\n"), "validator.CompileRego"))
+	var extra []string
+	for k := range opaPkgs {
+		if !strings.HasSuffix(k, "opa/rego") && !strings.HasSuffix(k, "opa/ast") {
+			extra = append(extra, k)
+		}
+	}
+	sort.Strings(extra)
+	obls = append(obls, analysisObl("frame:compile-api#opa-packages", "frame", tags, len(extra) == 0, "only the rego and ast packages of the engine are called", "", strings.Join(extra, "\n"), "validator.CompileRego"))
 	return obls
 }
